@@ -9,6 +9,12 @@ from .._compat import number_types, string_types
 NoneType = type(None)
 
 
+def _both_plain_numbers(a, b):
+    # bool is a subclass of int, but logicals rank above text and numbers in XL
+    return (isinstance(a, number_types) and not isinstance(a, bool) and
+            isinstance(b, number_types) and not isinstance(b, bool))
+
+
 class ExcelComparator(object):
 
     def __init__(self, value):
@@ -36,7 +42,7 @@ class ExcelComparator(object):
                 return ExcelComparator(other).__gt__(self.value)
         if type(self.value) != type(other):
             other = self.convert_other(other)
-        if type(self.value) != type(other) and not (isinstance(self.value, number_types) and isinstance(other, number_types)):
+        if type(self.value) != type(other) and not (_both_plain_numbers(self.value, other)):
             # if the type is still different
             if isinstance(self.value, bool):
                 return False  # bool is the biggest in XL
@@ -56,7 +62,7 @@ class ExcelComparator(object):
             return ExcelComparator(other).__lt__(self.value)
         if type(self.value) != type(other):
             other = self.convert_other(other)
-        if type(self.value) != type(other) and not (isinstance(self.value, number_types) and isinstance(other, number_types)):
+        if type(self.value) != type(other) and not (_both_plain_numbers(self.value, other)):
             if isinstance(self.value, bool):
                 return True  # bool is the biggest in XL
             if isinstance(self.value, string_types):
@@ -75,6 +81,8 @@ class ExcelComparator(object):
             return ExcelComparator(other).__eq__(self.value)
         if type(self.value) != type(other):
             other = self.convert_other(other)
+        if isinstance(self.value, bool) != isinstance(other, bool):
+            return False  # a logical never equals a number
         return self.value == other
 
     def __ge__(self, other):
